@@ -35,9 +35,9 @@ Proof.
   { intros e He. destruct Valid as [Hacc _]. apply (accepted_cr vals _ _ (table_wfTD vals D Hacc) e). apply -> in_rev. exact He. }
   assert (Estart : start 1 vals = start 1 (vals' vals)) by (unfold start; rewrite EV, Can; reflexivity).
   assert (Eops : abft_ops_r lam vals rs D = abft_ops_r (fun e' => lam (upe vals e')) (vals' vals) rs D').
-  { unfold abft_ops_r, D'. clear - Hcr Hperm Hlen. revert rs Hlen. induction D as [|e D IH]; intros [|r rs] Hlen; try reflexivity; try discriminate.
+  { unfold abft_ops_r, abft_ops_r_ep, D'. clear - Hcr Hperm Hlen. revert rs Hlen. induction D as [|e D IH]; intros [|r rs] Hlen; try reflexivity; try discriminate.
     cbn [map combine flat_map fst snd].
-    assert (Eae : to_aevent (fun e' => lam (upe vals e')) (vals' vals) (pe vals e) = to_aevent lam vals e).
+    assert (Eae : to_aevent 1 (fun e' => lam (upe vals e')) (vals' vals) (pe vals e) = to_aevent 1 lam vals e).
     { unfold to_aevent. cbn [pe fe ffr eid ecr eseq epar]. fold (pe vals e). rewrite (upe_pe vals e (Hcr e (or_introl eq_refl))). f_equal. unfold vid.
       rewrite (vid_vals' vals _ (pos_lt _ _ Hperm _ (Hcr e (or_introl eq_refl)))), (unpos_pos _ _ Hperm _ (Hcr e (or_introl eq_refl))). reflexivity. }
     rewrite Eae. f_equal. apply IH; [intros e0 He0; apply Hcr; right; exact He0 | cbn [length] in Hlen; lia]. }
